@@ -5,6 +5,7 @@ import re
 
 from c07 import r3 as _unused  # noqa: F401  (C07 decides the guard side)
 from common import pt_deref
+from mir import op_local
 
 LEVEL = 'other'
 EXPLANATION = (
@@ -330,9 +331,22 @@ def r3(R3, cfg, F, hr):
             ok = bool(ap) and ap[0].startswith('arg') and w.local_ty(int(ap[0][3:])) == 'entry::CacheEntry'
             if ok:
                 v = int(ap[0][3:])
-                drops = [d.bb for d in w.drops() if d.term['place']['l'] == v and not d.term['place']['p']]
+                # implicit drops of the parameter, or an explicit drop(value) (possibly after moving it into another local)
+                holders = set(w.flows_to(v)) | {v}
+                drops = [d.bb for d in w.drops() if d.term['place']['l'] in holders and not d.term['place']['p']]
+                drops += [c.bb for c in w.calls() if c.callee and c.callee.best == 'std::mem::drop' and c.args
+                          and c.args[0]['k'] == 'move' and c.args[0]['place']['l'] in holders and not c.args[0]['place']['p']]
                 exits = set(w.return_blocks()) | set(w.resume_blocks())
-                leak = w.reachable([call.target], removed_blocks=drops, unwind=True) & exits
+                # drop flags are followed: when the value was moved into an explicit drop(..), its flag is false on the
+                # unwind paths that come after that call and the cleanup correctly skips it
+                vflags = set()
+                for bb, t in w.terms():
+                    if t['k'] == 'switch' and op_local(t['discr']) in w.flag_locals() and \
+                            any(w.blocks[d]['term']['k'] == 'drop' and w.blocks[d]['term']['place']['l'] in holders for d, _ in w.edges(bb, True)):
+                        vflags.add(op_local(t['discr']))
+                start_flags = {f: True for f in vflags}
+                states = w.reachable_with_flags(call.target, start_flags, removed_blocks=drops, unwind=True)
+                leak = [bb for bb, st in states if bb in exits and (not vflags or any(v is not False for f, v in st if f in vflags))]
                 ok = bool(drops) and not leak
                 wg = [c for c in w.calls() if c.callee and re.search(r'RwLock::<T>::write$', c.callee.best)]
                 if ok and len(wg) == 1:
